@@ -1,0 +1,39 @@
+//! Verification hooks (feature `verif`, off by default).
+//!
+//! `point(name, detail)` and `emit(name, detail)` look up an optional
+//! process-global handler. With no handler installed both are no-ops.
+//! A handler installed by a verification harness may block inside
+//! `point`: that is how the harness gates the subject at a named step.
+
+use std::sync::{Arc, RwLock};
+
+pub type Handler = Arc<dyn Fn(&str, &str) + Send + Sync + 'static>;
+
+static POINT: RwLock<Option<Handler>> = RwLock::new(None);
+static EMIT: RwLock<Option<Handler>> = RwLock::new(None);
+
+/// Install (or clear) the handler invoked by [`point`].
+pub fn set_point_handler(h: Option<Handler>) {
+    *POINT.write().unwrap() = h;
+}
+
+/// Install (or clear) the handler invoked by [`emit`].
+pub fn set_emit_handler(h: Option<Handler>) {
+    *EMIT.write().unwrap() = h;
+}
+
+/// A named scheduling point. The handler may block the calling thread.
+pub fn point(name: &str, detail: &str) {
+    let h = POINT.read().unwrap().clone();
+    if let Some(h) = h {
+        h(name, detail);
+    }
+}
+
+/// A named observation. The handler must not block.
+pub fn emit(name: &str, detail: &str) {
+    let h = EMIT.read().unwrap().clone();
+    if let Some(h) = h {
+        h(name, detail);
+    }
+}
